@@ -58,13 +58,18 @@ from .qnormalization import QBatchNormalization
 from .qpooling import QGlobalAveragePooling2D
 from .qtools import qgraph
 from .quantizers import binary
+from .quantizers import binary_sigmoid
+from .quantizers import binary_tanh
 from .quantizers import bernoulli
 from .quantizers import get_weight_scale
+from .quantizers import hard_tanh
 from .quantizers import quantized_bits
 from .quantizers import quantized_hswish
 from .quantizers import quantized_linear
 from .quantizers import quantized_relu
 from .quantizers import quantized_ulaw
+from .quantizers import smooth_sigmoid
+from .quantizers import smooth_tanh
 from .quantizers import quantized_tanh
 from .quantizers import quantized_sigmoid
 from .quantizers import quantized_po2
@@ -1068,6 +1073,12 @@ def _add_supported_quantized_objects(custom_objects):
   custom_objects["quantized_sigmoid"] = quantized_sigmoid
   custom_objects["quantized_po2"] = quantized_po2
   custom_objects["quantized_relu_po2"] = quantized_relu_po2
+  # activation functions of the library that layers serialize by name
+  custom_objects["binary_sigmoid"] = binary_sigmoid
+  custom_objects["binary_tanh"] = binary_tanh
+  custom_objects["hard_tanh"] = hard_tanh
+  custom_objects["smooth_sigmoid"] = smooth_sigmoid
+  custom_objects["smooth_tanh"] = smooth_tanh
   # custom_objects["quantized_bits_learnable_scale"] = quantized_bits_learnable_scale
 
   custom_objects["QConv2DBatchnorm"] = QConv2DBatchnorm
